@@ -23,8 +23,15 @@ def local_names( fn ):
         if isinstance( n, ( ast.Global, ast.Nonlocal )):
             glob |= set( n.names )
     stores = set()
+    cls_names = set()		# names bound in nested class bodies are attributes, not locals: renaming them is not behaviour-preserving
+    for c in ast.walk( fn ):
+        if isinstance( c, ast.ClassDef ):
+            for s in c.body:
+                for n in ast.walk( s ) if not isinstance( s, ( ast.FunctionDef, ast.ClassDef )) else ():
+                    if isinstance( n, ast.Name ) and isinstance( n.ctx, ast.Store ):
+                        cls_names.add( n.id )
     for n in ast.walk( fn ):
-        if isinstance( n, ast.Name ) and isinstance( n.ctx, ast.Store ):
+        if isinstance( n, ast.Name ) and isinstance( n.ctx, ast.Store ) and n.id not in cls_names:
             stores.add( n.id )
     # names also bound by nested defs / used as free variables in nested functions are still local to fn: renaming all Name occurrences inside fn is consistent
     return sorted( stores - params - glob )
